@@ -35,6 +35,8 @@ type replayFile struct {
 	Choices map[string]int    `json:"choices"`
 	Params  map[string]int    `json:"params"`
 	Events  []string          `json:"events"`
+	Kind    string            `json:"kind"`    // set for a violation found by the engine
+	Retries int               `json:"retries"` // timing-dependent violations: replay up to this many more times (with fresh Jitter) until it shows
 }
 
 type replayOut struct {
@@ -243,6 +245,25 @@ func Frozen(label string, roots ...any) {
 	cur.mu.Unlock()
 }
 
+var attempt int
+
+// Jitter is a point where real time passes: natively a pseudo-random sleep of
+// up to maxMicros microseconds (a different sequence on every retry of a
+// timing-dependent replay); under the engine nothing (schedules are explored
+// by the scheduler, not by timing).
+func Jitter(maxMicros int) {
+	jitterMu.Lock()
+	jitterState = jitterState*6364136223846793005 + 1442695040888963407 + uint64(attempt)*7919
+	d := time.Duration((jitterState>>33)%uint64(maxMicros+1)) * time.Microsecond
+	jitterMu.Unlock()
+	time.Sleep(d)
+}
+
+var (
+	jitterMu    sync.Mutex
+	jitterState uint64 = 88172645463325252
+)
+
 // Preempt is an explicit point at which any other runnable goroutine may be
 // scheduled (a decision of the explorer; natively a yield).
 func Preempt() { runtime.Gosched() }
@@ -350,6 +371,11 @@ func RunReplays(harnesses map[string]func(), setups map[string]func()) error {
 			s()
 		}
 		out := runOne(rf, h)
+		for try := 1; out.Outcome == "ok" && rf.Kind != "" && try <= rf.Retries; try++ {
+			attempt = try
+			out = runOne(rf, h)
+		}
+		attempt = 0
 		ob, _ := json.MarshalIndent(out, "", " ")
 		if err := os.WriteFile(strings.TrimSuffix(f, ".replay.json")+".out.json", ob, 0o644); err != nil {
 			return err
